@@ -612,6 +612,17 @@ func runC13(c *Ctx) error {
 			c.Count("class:" + cl)
 		}
 	}
+	// histories with zero-work headers (any-work theorems: the labelled chain; see the driver)
+	for i, m := 0, c.Pick(25, 250); i < m; i++ {
+		o := GenOpts{N: 2 + c.Rng.Intn(c.Pick(20, 35)), PUnknown: 0.06, PLate: 0.08, PDup: 0.05, ZeroWork: true, Deep: i%2 == 0}
+		h := GenHistory(c.Rng, o)
+		st, err := c13Build(s, h.Line())
+		if err != nil {
+			return err
+		}
+		r.queries(st, 12, 8, 0)
+		c.Count("gen:random-with-zero-work")
+	}
 	// a linear trunk of 30-60 headers with stale siblings and orphans at the heights the locator visits
 	for i, m := 0, c.Pick(6, 40); i < m; i++ {
 		trunk := 20 + c.Rng.Intn(45)
